@@ -80,6 +80,7 @@ class Daemon:
         env["FAN2GO_VERIF_HWMON_ROOT"] = tree_root
         env["FAN2GO_VERIF_TIMESCALE"] = str(timescale)
         env["HOME"] = work
+        env["FAN2GO_VERIF_SCRATCH_DIR"] = work
         self.evlog = None
         if driver is not None:
             self.evlog = os.path.join(work, name + ".events")
